@@ -20,7 +20,8 @@ vars == << pk, buf, prov, memo, fromdec, provdec >>
 
 None   == [k |-> "NONE"]
 NoRes  == [ok |-> FALSE, out |-> << >>, panic |-> FALSE, none |-> TRUE]
-NoMemo == [marshal |-> NoRes, size |-> -1, dest |-> << >>, hasdest |-> FALSE, str |-> << >>, hasstr |-> FALSE]
+\* src: the octets the packet was decoded from, kept when they were the library's own Marshal output (for the re-marshal clause of C02)
+NoMemo == [marshal |-> NoRes, size |-> -1, dest |-> << >>, hasdest |-> FALSE, str |-> << >>, hasstr |-> FALSE, src |-> << >>, hassrc |-> FALSE]
 
 Init == /\ pk = [h \in H |-> None] /\ buf = [h \in H |-> << >>]
         /\ prov = [h \in H |-> None] /\ memo = [h \in H |-> NoMemo]
@@ -39,12 +40,21 @@ RefDatagram(b)   == LET r == DecDatagram(D0, b) IN
 \* ExtendedReport.Marshal fills in its blocks' header fields (documented), which String prints
 ContainsXR(v) == IF IsList(v) THEN \E i \in 1..Len(v.pkts) : v.pkts[i].k = "XR" ELSE v.k = "XR"
 
+RemarshalStable(D, k, src) ==
+  IF k = "CP" THEN FALSE
+  ELSE LET r == IF k = "LIST" THEN DecDatagram(D, src) ELSE DecAs(D, k, src) IN
+       r.st = "ok" /\ (IF k = "LIST" THEN EncList(D, r.v) ELSE EncPacket(D, r.v)) = src
+
 \* ---- guards -------------------------------------------------------------
 SameMarshal(a, b) == a.ok = b.ok /\ (a.ok => a.out = b.out)
 MarshalGuard(D, h, res) ==
   MarshalTags(D, pk[h], res)
   \cup (IF "none" \notin DOMAIN memo[h].marshal /\ ~SameMarshal(memo[h].marshal, res) THEN {"C18:marshal_not_repeatable"} ELSE {})
   \cup (IF res.panic /\ h \in fromdec /\ pk[h].k = "LIST" THEN {"C09:remarshal_panic"} ELSE {})
+  \* C02: re-marshalling what was decoded from the library's own output of a well-formed value reproduces the octets
+  \* (demanded when the model D itself re-encodes them identically: always so for the strict model)
+  \cup (IF memo[h].hassrc /\ ~res.panic /\ RemarshalStable(D, pk[h].k, memo[h].src) /\ (~res.ok \/ res.out # memo[h].src)
+        THEN {"C02:remarshal_differs"} ELSE {})
 SizeGuard(D, h, out) ==
   SizeTags(D, pk[h], out, memo[h].marshal)
   \cup (IF memo[h].size # -1 /\ memo[h].size # out THEN {"C18:size_not_repeatable"} ELSE {})
@@ -62,6 +72,12 @@ DatagramGuard(D, b, res) ==
   DatagramTags(D, buf[b], res)
   \cup (IF prov[b].k # "NONE" /\ prov[b].k # "CP" /\ WFAny(D, prov[b]) THEN RtDatagramTags(D, prov[b], res) ELSE {})
   \cup (IF b \in provdec /\ prov[b].k = "LIST" THEN StableTags(D, prov[b], res) ELSE {})
+
+\* the memo of a freshly decoded packet: remembers the source octets when they are the library's own
+\* output of a well-formed value of the kind decoded (or of anything, for the datagram decoder)
+SrcMemo(b, k) ==
+  IF prov[b].k # "NONE" /\ prov[b].k # "CP" /\ (k = "LIST" \/ prov[b].k = k) /\ WFAny({}, prov[b])
+  THEN [NoMemo EXCEPT !.src = buf[b], !.hassrc = TRUE] ELSE NoMemo
 
 \* ---- actions --------------------------------------------------------------
 Build(h, v) ==
@@ -92,13 +108,13 @@ StringOf(h, res) ==
 Unmarshal(k, b, h, res) ==
   /\ UnmarshalGuard(D0, k, b, res) = {}
   /\ pk' = [pk EXCEPT ![h] = IF res.ok THEN res.out ELSE None]
-  /\ memo' = [memo EXCEPT ![h] = NoMemo]
+  /\ memo' = [memo EXCEPT ![h] = SrcMemo(b, k)]
   /\ fromdec' = IF res.ok THEN fromdec \cup {h} ELSE fromdec \ {h}
   /\ UNCHANGED << buf, prov, provdec >>
 Datagram(b, h, res) ==
   /\ DatagramGuard(D0, b, res) = {}
   /\ pk' = [pk EXCEPT ![h] = IF res.ok THEN [k |-> "LIST", pkts |-> res.out] ELSE None]
-  /\ memo' = [memo EXCEPT ![h] = NoMemo]
+  /\ memo' = [memo EXCEPT ![h] = SrcMemo(b, "LIST")]
   /\ fromdec' = IF res.ok THEN fromdec \cup {h} ELSE fromdec \ {h}
   /\ UNCHANGED << buf, prov, provdec >>
 
